@@ -54,31 +54,55 @@ type WorkingMemory struct {
 func (workingMem *WorkingMemory) MakeCatalog(cat *Catalog) {
 	cat.MemoryName = workingMem.Name
 	cat.MemoryVersion = workingMem.Version
+	// only nodes that were catalogued (i.e. are reachable from a stored rule entry) can be referred to.
+	catalogued := func(astID string) bool {
+		_, ok := cat.Data[astID]
+
+		return ok
+	}
 	cat.MemoryExpressionSnapshotMap = make(map[string]string)
 	for key, value := range workingMem.expressionSnapshotMap {
-		cat.MemoryExpressionSnapshotMap[key] = value.AstID
+		if catalogued(value.AstID) {
+			cat.MemoryExpressionSnapshotMap[key] = value.AstID
+		}
 	}
 	cat.MemoryExpressionAtomSnapshotMap = make(map[string]string)
 	for key, value := range workingMem.expressionAtomSnapshotMap {
-		cat.MemoryExpressionAtomSnapshotMap[key] = value.AstID
+		if catalogued(value.AstID) {
+			cat.MemoryExpressionAtomSnapshotMap[key] = value.AstID
+		}
 	}
 	cat.MemoryVariableSnapshotMap = make(map[string]string)
 	for key, value := range workingMem.variableSnapshotMap {
-		cat.MemoryVariableSnapshotMap[key] = value.AstID
+		if catalogued(value.AstID) {
+			cat.MemoryVariableSnapshotMap[key] = value.AstID
+		}
 	}
 	cat.MemoryExpressionVariableMap = make(map[string][]string)
 	for key, value := range workingMem.expressionVariableMap {
-		cat.MemoryExpressionVariableMap[key.AstID] = make([]string, len(value))
-		for i, j := range value {
-			cat.MemoryExpressionVariableMap[key.AstID][i] = j.AstID
+		if !catalogued(key.AstID) {
+			continue
 		}
+		ids := make([]string, 0, len(value))
+		for _, j := range value {
+			if catalogued(j.AstID) {
+				ids = append(ids, j.AstID)
+			}
+		}
+		cat.MemoryExpressionVariableMap[key.AstID] = ids
 	}
 	cat.MemoryExpressionAtomVariableMap = make(map[string][]string)
 	for key, value := range workingMem.expressionAtomVariableMap {
-		cat.MemoryExpressionAtomVariableMap[key.AstID] = make([]string, len(value))
-		for i, j := range value {
-			cat.MemoryExpressionAtomVariableMap[key.AstID][i] = j.AstID
+		if !catalogued(key.AstID) {
+			continue
 		}
+		ids := make([]string, 0, len(value))
+		for _, j := range value {
+			if catalogued(j.AstID) {
+				ids = append(ids, j.AstID)
+			}
+		}
+		cat.MemoryExpressionAtomVariableMap[key.AstID] = ids
 	}
 }
 
